@@ -32,7 +32,7 @@ MIN_NONTRIVIAL = {'quick': 1500, 'thorough': 40000}
 REQUIRED_MONITORS = ['boundary:PLSSDesc', 'roundtrip:pretty_desc',
                      'hook:deduce_layout', 'hook:populate_markers',
                      'hook:_stage_new_tract',
-                     'numlead']
+                     'numlead', 'boundary:PLSSDesc:colon-mode-neutral']
 EXHAUSTIVE_SUBSPACES = {
     'thorough': ["4 layouts x 6 Twp/Rge spellings x 6 section words x 5 "
                  "separators on a fixed 2x2 skeleton"],
@@ -101,6 +101,20 @@ def check_case(case, ctx, rec, pytrs):
                               f"with config 'segment': expected {exp} got "
                               f"{gots} (e_flags {ds.e_flags})",
                               dedup=f"segment|{layout}")
+                return
+        if layout in ('TR_desc_S', 'desc_STR') and len(text) % 3 == 0:
+            # The colon modes are documented to have an effect only where
+            # the section precedes its block (TRS_desc, S_desc_TR).
+            ctx.hit('boundary:PLSSDesc:colon-mode-neutral')
+            mode = ('sec_colon_required', 'sec_colon_cautious')[len(text) % 2]
+            dc = pytrs.PLSSDesc(text, config=mode)
+            gotc = [[t.trs, t.desc] for t in dc.tracts]
+            if gotc != exp or dc.e_flags:
+                ctx.violation('tracts-differ', case,
+                              f"with config {mode!r} (layout {layout}, on "
+                              f"which it has no effect): expected {exp} got "
+                              f"{gotc} (e_flags {dc.e_flags})",
+                              dedup=f"{mode}|{layout}")
                 return
         k = len(text) % 4
         pretty = (d.pretty_desc() if k < 2 else
